@@ -435,3 +435,38 @@ PROPS = {
         "assumptions": ["open(2) with O_CREAT|O_EXCL fails on an existing path and leaves it untouched (POSIX contract)", "entries shorter than 4 GiB (finding F11)"],
     },
 }
+
+
+class ExclFamily(Family):
+    name = "excl"
+    def cases(self, pid, seed, tier, mult, stats):
+        rng = Rng(seed * 31337 + 3)
+        lines = []
+        for i in range(budget(tier, 30, 300, mult)):
+            kind = rng.pick(["regular", "regular", "dangling", "none"])
+            content = bytes(rng.below(256) for _ in range(rng.pick([0, 0, 1, 10, 600])))
+            stats.bump("excl_" + kind + ("_empty" if kind == "regular" and not content else ""))
+            lines.append("excl.probe kind=%s content=%s" % (kind, hx(content) if kind == "regular" else "-"))
+        yield ("excl:%d" % seed, lines)
+    def oracle(self, res):
+        fails = []
+        for i, r in enumerate(res):
+            t = r["req"].split(" ")
+            kv = dict(a.split("=", 1) for a in t[1:])
+            if kv["kind"] == "none":
+                if r["real"] != "ok":
+                    fails.append(("C08", "writer_init on a fresh path returned %s" % r["real"], i))
+            elif kv["kind"] == "regular":
+                if r["real"] != "null " + kv["content"]:
+                    fails.append(("C08", "writer_init on an existing file: %s (file must be refused and left untouched)" % r["real"][:80], i))
+            else:
+                if r["real"] != "null dangling":
+                    fails.append(("C08", "writer_init on a dangling symlink: %s" % r["real"], i))
+        return fails
+    def tie_props(self, res, idx):
+        return {"C08"}
+    def nontrivial(self, pid, lines, res):
+        return True
+
+FAMILIES["excl"] = ExclFamily
+NOT_YET = {}
